@@ -52,7 +52,65 @@ def by_name(name):
     raise KeyError(name)
 
 
+_HOSTILE = [None]
+
+
+class _HostileLists:
+    """py4hw seen through a caller that reuses its own list objects: every list handed to a block constructor is the caller's scratch
+    list, and it is emptied / reordered / refilled as soon as the constructor returns. A block is defined by the wires on its ports,
+    so nothing the caller does to its own list afterwards may change the block."""
+
+    def __init__(self, mode):
+        self.mode = mode
+        self.lists_seen = 0
+
+    def __getattr__(self, name):
+        import py4hw
+        obj = getattr(py4hw, name)
+        if not isinstance(obj, type):
+            return obj
+        outer = self
+
+        def ctor(*a, **k):
+            scratch = []
+
+            def conv(x):
+                if isinstance(x, list):
+                    y = list(x)
+                    scratch.append(y)
+                    return y
+                return x
+            inst = obj(*[conv(x) for x in a], **{n: conv(x) for n, x in k.items()})
+            for y in scratch:
+                outer.lists_seen += 1
+                m = outer.mode
+                if m == 'clear' or len(y) < 2:
+                    y.clear()
+                elif m == 'reverse':
+                    y.reverse()
+                elif m == 'rotate':
+                    y.append(y.pop(0))
+                else:
+                    y[:] = [y[0]] * len(y)
+            return inst
+        return ctor
+
+
+class hostile_lists:
+    def __init__(self, mode):
+        self.h = _HostileLists(mode)
+
+    def __enter__(self):
+        _HOSTILE[0] = self.h
+        return self.h
+
+    def __exit__(self, *a):
+        _HOSTILE[0] = None
+
+
 def P():
+    if _HOSTILE[0] is not None:
+        return _HOSTILE[0]
     import py4hw
     return py4hw
 
